@@ -30,7 +30,7 @@ def run(ctx):
             "overlap_equal_blocks", "overlap_net_from_range", "directed_accepted", "directed_rejected",
             "directed_rejected: address entries share addresses", "directed_rejected: an aggregate leaves the address entry",
             "directed_rejected: aggregation length beyond the address width", "directed_aggsweep_loose", "directed_aggsweep_tight", "directed_mixednode_inside", "directed_mixednode_outside", "directed_selgroup", "directed_l2nested"] + \
-           ["directed_notation_x%d_y%d" % (x, y) for x in range(4) for y in range(6)]
+           ["directed_notation_x%d_y%d" % (x, y) for x in range(4) for y in range(9)] + ["directed_peerclash_one_sided", "directed_peerclash_disjoint", "directed_peerclash_overlapping", "overlap_one_shared_address"]
     if cases and not ctx.replay_in and not ctx.violations and not ctx.corr_broken and any(st.get(k, 0) == 0 for k in need):
         raise Exception("generator degenerate: %r" % st)
 
